@@ -3,6 +3,11 @@ use super::mipmap::generate_mipmaps;
 use crate::types::*;
 use ::image::{DynamicImage, RgbaImage, imageops::FilterType};
 
+/// How many bytes of DXT data a mipmap level may lack and still be decoded, the
+/// missing blocks are read as zeros. Covers the short small mipmaps found in real
+/// files (64x64 pixels of DXT3/DXT5) without letting a header alone size the output.
+const MAX_DXT_PADDING: usize = 4096;
+
 pub fn dxtn_to_image(
     header: &BlpHeader,
     image: &BlpDxtn,
@@ -13,7 +18,6 @@ pub fn dxtn_to_image(
     }
     let raw_image = &image.images[mipmap_level];
     let (width, height) = header.mipmap_size(mipmap_level);
-    let size = (width as usize) * (height as usize) * 4;
 
     let decoder: texpresso::Format = image.format.into();
 
@@ -22,7 +26,28 @@ pub fn dxtn_to_image(
     // - DXT1: 8 bytes per block
     // - DXT3/DXT5: 16 bytes per block
     // Formula: ceil((width+3)/4) * ceil((height+3)/4) * block_size
-    let required_size = decoder.compressed_size(width as usize, height as usize);
+    //
+    // Width and height are untrusted header fields. The decoder cannot work on an
+    // empty image, and both the padded input and the output are sized from the
+    // dimensions alone, so they must be backed by the stored data: only a short
+    // tail of at most MAX_DXT_PADDING bytes may be missing.
+    let block_size = decoder.block_size();
+    let required_size = (width.div_ceil(4) as usize)
+        .checked_mul(height.div_ceil(4) as usize)
+        .and_then(|blocks| blocks.checked_mul(block_size))
+        .filter(|&required| {
+            width != 0
+                && height != 0
+                && required <= raw_image.content.len().saturating_add(MAX_DXT_PADDING)
+        })
+        .ok_or_else(|| {
+            // Every stored block covers 4x4 pixels
+            let stored_pixels = (raw_image.content.len() / block_size).saturating_mul(16);
+            Error::MismatchSizes(mipmap_level, width, height, stored_pixels)
+        })?;
+    // A block never decodes to more than 16 pixels of 4 bytes: no overflow is
+    // possible once the compressed size is known to fit
+    let size = (width as usize) * (height as usize) * 4;
 
     // If the actual data is smaller than required, pad with zeros
     // This matches SereniaBLPLib behavior - small mipmaps often have undersized data
